@@ -100,6 +100,7 @@ def build_conn(b, seed, params=None):
             c.token = c.g(16)
             c.raw("s", Q.retry_packet(c.odcid, c.cid["c"], new_scid, c.token), "RETRY")
             c.cid["s"] = new_scid
+            c.retry_scid = new_scid
             c.dcid_now["c"] = new_scid
             c.init = Q.initial_keys(new_scid)
             continue
